@@ -217,6 +217,7 @@ macro_rules! for_configs {
             (8, 8) => $m!($crate::BUintD8<8>, $crate::BIntD8<8>, u8, 8 $(, $a)*),
             (8, 17) => $m!($crate::BUintD8<17>, $crate::BIntD8<17>, u8, 17 $(, $a)*),
             (8, 33) => $m!($crate::BUintD8<33>, $crate::BIntD8<33>, u8, 33 $(, $a)*),
+            (8, 300) => $m!($crate::BUintD8<300>, $crate::BIntD8<300>, u8, 300 $(, $a)*),
             (16, 1) => $m!($crate::BUintD16<1>, $crate::BIntD16<1>, u16, 1 $(, $a)*),
             (16, 2) => $m!($crate::BUintD16<2>, $crate::BIntD16<2>, u16, 2 $(, $a)*),
             (16, 3) => $m!($crate::BUintD16<3>, $crate::BIntD16<3>, u16, 3 $(, $a)*),
